@@ -11,6 +11,13 @@
 (* step, X's reply and whether X touches the store; D's reply is always    *)
 (* the full chain.  The harness compares X with D byte for byte.           *)
 (*                                                                         *)
+(* One process serves several logs (constant Logs): every log has its own  *)
+(* backend tree, its own storage table and its own cache, built by the     *)
+(* same constructor from the same (process-wide) options.  Every variable  *)
+(* below is a function of the log; an action on one log leaves the others  *)
+(* as they are (LogsIndependent), in particular "in the cache of log l"    *)
+(* stands for "stored in the table of log l" and for nothing else.         *)
+(*                                                                         *)
 (* The storage layer below the cache is a refinement detail selected by    *)
 (* the constant Dialect: "memory" (a map: Add assigns), "mysql" (INSERT;   *)
 (* a duplicate key is refused with error 1062, which Add swallows),        *)
@@ -21,19 +28,28 @@
 (* in flight and after the commit, a lost connection that database/sql     *)
 (* replaces without the caller noticing, a database that is down), and     *)
 (* what the layer itself hands to the service (reply.layer).               *)
+(*                                                                         *)
+(* Defect # "none" switches a named defect on IN THE MODEL (never in the   *)
+(* instances used for replay): TLC must then refute AckedServable /        *)
+(* RangeWhole, which shows that those properties are not vacuous for the   *)
+(* retry-after-a-failed-Add, several-logs and page-completion-order        *)
+(* dimensions.                                                             *)
 (***************************************************************************)
 EXTENDS Integers, Sequences, FiniteSets, TLC
 
 CONSTANTS
+  Logs,       \* the logs served by one process, each with its own tree, storage and cache
   Certs,      \* leaf certificates
   ChainOf,    \* [Certs -> chain id]: several certificates share an issuance chain ("c0" = empty chain, leaf-only path)
   NoCache,    \* TRUE: the noop cache
   Cap,        \* LRU capacity: 0 = unbounded, n > 0 = n entries
   MaxTree,
   MaxFaults,
-  Dialect     \* storage layer: "memory" | "mysql" | "postgresql"
+  Dialect,    \* storage layer: "memory" | "mysql" | "postgresql"
+  Defect      \* "none" | "cacheOnFailedAdd" | "sharedCache" | "pageLastWins"
 
 ASSUME Dialect \in {"memory", "mysql", "postgresql"}
+ASSUME Defect \in {"none", "cacheOnFailedAdd", "sharedCache", "pageLastWins"}
 SQL == Dialect # "memory"
 
 \* what the storage layer does with an Add of a key the table already holds
@@ -58,229 +74,311 @@ FindFaults == FindFaultsHard \cup FindFaultsSoft
 
 Chains == {ChainOf[c] : c \in Certs}
 
+\* get-entries pages.  The leaves of a page are fixed up one by one or all at once - the specification does not say;
+\* Orders is the order in which the per-leaf work of a page COMPLETES (materialized as latencies of the storage
+\* lookups): by index, against the index, every leaf that cannot be fixed first, every such leaf last.  The reply
+\* does not depend on it (RangeOrderIrrelevant).
+Orders == {"asc", "desc", "failFast", "failSlow"}
+\* one leaf of the page as the backend returned it cannot be fixed at all: its extra data is none of the four layouts
+\* (random bytes / a hash layout cut short), is absent, the whole leaf is empty, or it names a hash nothing was ever
+\* stored under.  pos = 0: the page is as stored.
+GarbleClasses == {"garbageExtra", "truncatedHash", "noExtraData", "emptyLeaf", "unknownHash"}
+NoGarble == [pos |-> 0, class |-> "none"]
+
 VARIABLES
-  queued,     \* Seq(Certs): submitted, not yet integrated (same in D and X: de-duplication is by certificate)
-  tree,       \* Seq([cert, layout]): integrated entries; layout "hash" (written by X) or "full" (legacy, written in direct mode)
-  known,      \* set of certificates the backend has seen
-  store,      \* set of chain ids in X's storage
-  bad,        \* [chain id -> corruption class] for corrupted rows ("ok" otherwise)
-  cache,      \* Seq(chain id), least recently used first
-  pending,    \* Seq(chain id): detached cache.Set calls not yet executed
-  faults,     \* faults injected so far
+  queued,     \* [Logs -> Seq(Certs)]: submitted, not yet integrated (same in D and X: de-duplication is by certificate)
+  tree,       \* [Logs -> Seq([cert, layout])]: integrated entries; layout "hash" (written by X) or "full" (legacy, written in direct mode)
+  known,      \* [Logs -> set of certificates the backend has seen]
+  store,      \* [Logs -> set of chain ids in X's storage]
+  bad,        \* [Logs -> [chain id -> corruption class]] for corrupted rows ("ok" otherwise)
+  lost,       \* [Logs -> set of chain ids]: rows removed by storage damage (DropRow) and not stored again since
+  cache,      \* [Logs -> Seq(chain id)], least recently used first
+  pending,    \* [Logs -> Seq(chain id)]: detached cache.Set calls not yet executed
+  faults,     \* faults injected so far (process-wide)
   hist, last
 
-vars == <<queued, tree, known, store, bad, cache, pending, faults, hist, last>>
+vars == <<queued, tree, known, store, bad, lost, cache, pending, faults, hist, last>>
 
-InCache(h) == \E i \in 1..Len(cache) : cache[i] = h
+InCache(l, h) == \E i \in 1..Len(cache[l]) : cache[l][i] = h
+\* what the service of log l takes for "in my cache"
+Hit(l, h) == ~NoCache /\ IF Defect = "sharedCache" THEN \E m \in Logs : InCache(m, h) ELSE InCache(l, h)
 Without(s, h) == SelectSeq(s, LAMBDA x : x # h)
-Touch(h) == Append(Without(cache, h), h)                  \* a hit moves the entry to the most-recent end
-Put(h) == IF NoCache THEN cache
-          ELSE LET c1 == Append(Without(cache, h), h)
-               IN IF Cap > 0 /\ Len(c1) > Cap THEN Tail(c1) ELSE c1      \* evict the least recently used
+Touch(l, h) == Append(Without(cache[l], h), h)                  \* a hit moves the entry to the most-recent end
+Put(l, h) == IF NoCache THEN cache[l]
+             ELSE LET c1 == Append(Without(cache[l], h), h)
+                  IN IF Cap > 0 /\ Len(c1) > Cap THEN Tail(c1) ELSE c1      \* evict the least recently used
 
 Step(op, args, reply) == [op |-> op, args |-> args, reply |-> reply]
 Record(s) == last' = s /\ hist' = Append(hist, s)
 
-Init == /\ queued = <<>> /\ tree = <<>> /\ known = {}
-        /\ store = {} /\ bad = [h \in Chains |-> "ok"]
-        /\ cache = <<>> /\ pending = <<>> /\ faults = 0
+Init == /\ queued = [l \in Logs |-> <<>>] /\ tree = [l \in Logs |-> <<>>] /\ known = [l \in Logs |-> {}]
+        /\ store = [l \in Logs |-> {}] /\ bad = [l \in Logs |-> [h \in Chains |-> "ok"]] /\ lost = [l \in Logs |-> {}]
+        /\ cache = [l \in Logs |-> <<>>] /\ pending = [l \in Logs |-> <<>>] /\ faults = 0
         /\ hist = <<>> /\ last = [op |-> "Init"]
 
-\* add-chain on both instances.  X: BuildLogLeaf stores the chain (unless the cache already has it), then queues.
-\* reply.add: the storage layer is called; reply.path: what it does; reply.layer: what it returns to the service.
-Submit(c, fault) ==
+\* add-chain on both instances of log l.  X: BuildLogLeaf stores the chain (unless the cache already has it), then queues.
+\* reply.add: the storage layer is called; reply.path: what it does; reply.layer: what it returns to the service;
+\* reply.stored: the table of log l holds the chain when the submission is answered.
+\* A submission that follows a failed one (the client's retry, or another leaf of the same issuer) is this same action:
+\* a failed Add leaves no trace (AddErrorIs5xx), so the retry meets the cache as it was and calls Add again.
+Submit(l, c, fault) ==
   LET h == ChainOf[c]
-      hit == ~NoCache /\ InCache(h)
-      present == h \in store
+      hit == Hit(l, h)
+      present == h \in store[l]
   IN /\ fault \in {"none"} \cup AddFaults
      /\ fault # "none" => faults < MaxFaults /\ ~hit       \* an Add fault can only strike when Add is called
      /\ IF fault \in AddFaultsHard
         THEN /\ faults' = faults + 1
              \* a statement that was executed before the cancellation has written its row (if there was none)
-             /\ store' = IF fault = "addLateCancel" THEN store \cup {h} ELSE store
-             /\ bad' = IF fault = "addLateCancel" /\ ~present THEN [bad EXCEPT ![h] = "ok"] ELSE bad
-             /\ UNCHANGED <<queued, tree, known, cache, pending>>
-             /\ Record(Step("Submit", [cert |-> c, fault |-> fault], [status |-> 500, add |-> TRUE, path |-> "error", layer |-> "error"]))
-        ELSE /\ store' = IF hit THEN store ELSE store \cup {h}
+             /\ store' = IF fault = "addLateCancel" THEN [store EXCEPT ![l] = @ \cup {h}] ELSE store
+             /\ bad' = IF fault = "addLateCancel" /\ ~present THEN [bad EXCEPT ![l][h] = "ok"] ELSE bad
+             /\ lost' = IF fault = "addLateCancel" THEN [lost EXCEPT ![l] = @ \ {h}] ELSE lost
+             \* the defect: the cache is told about a chain whose Add failed
+             /\ pending' = IF Defect = "cacheOnFailedAdd" /\ ~NoCache THEN [pending EXCEPT ![l] = Append(@, h)] ELSE pending
+             /\ UNCHANGED <<queued, tree, known, cache>>
+             /\ Record(Step("Submit", [log |-> l, cert |-> c, fault |-> fault],
+                            [status |-> 500, add |-> TRUE, path |-> "error", layer |-> "error", stored |-> h \in store'[l]]))
+        ELSE /\ store' = IF hit THEN store ELSE [store EXCEPT ![l] = @ \cup {h}]
              \* memory: a re-Add assigns the entry again (and so repairs a damaged one); SQL: the row that is there stays as it is
-             /\ bad' = IF hit \/ (SQL /\ present) THEN bad ELSE [bad EXCEPT ![h] = "ok"]
-             /\ cache' = IF hit THEN Touch(h) ELSE cache
-             /\ pending' = IF hit \/ NoCache THEN pending ELSE Append(pending, h)
-             /\ queued' = IF c \in known THEN queued ELSE Append(queued, c)
-             /\ known' = known \cup {c}
+             /\ bad' = IF hit \/ (SQL /\ present) THEN bad ELSE [bad EXCEPT ![l][h] = "ok"]
+             /\ lost' = IF hit THEN lost ELSE [lost EXCEPT ![l] = @ \ {h}]
+             /\ cache' = IF hit /\ InCache(l, h) THEN [cache EXCEPT ![l] = Touch(l, h)] ELSE cache
+             /\ pending' = IF hit \/ NoCache THEN pending ELSE [pending EXCEPT ![l] = Append(@, h)]
+             /\ queued' = IF c \in known[l] THEN queued ELSE [queued EXCEPT ![l] = Append(@, c)]
+             /\ known' = [known EXCEPT ![l] = @ \cup {c}]
              /\ faults' = IF fault = "none" THEN faults ELSE faults + 1
              /\ UNCHANGED tree
-             /\ Record(Step("Submit", [cert |-> c, fault |-> fault],
+             /\ Record(Step("Submit", [log |-> l, cert |-> c, fault |-> fault],
                             [status |-> 200, add |-> ~hit,
                              path |-> IF hit THEN "hit" ELSE IF present THEN DedupPath ELSE "inserted",
-                             layer |-> IF hit THEN "none" ELSE "ok"]))
+                             layer |-> IF hit THEN "none" ELSE "ok",
+                             stored |-> h \in store'[l]]))
 
-Sequence(k) ==
-  /\ k \in 1..Len(queued) /\ Len(tree) + k <= MaxTree
-  /\ tree' = tree \o [i \in 1..k |-> [cert |-> queued[i], layout |-> "hash"]]
-  /\ queued' = SubSeq(queued, k + 1, Len(queued))
-  /\ UNCHANGED <<known, store, bad, cache, pending, faults>>
-  /\ Record(Step("Sequence", [k |-> k], [status |-> 0]))
+Sequence(l, k) ==
+  /\ k \in 1..Len(queued[l]) /\ Len(tree[l]) + k <= MaxTree
+  /\ tree' = [tree EXCEPT ![l] = @ \o [i \in 1..k |-> [cert |-> queued[l][i], layout |-> "hash"]]]
+  /\ queued' = [queued EXCEPT ![l] = SubSeq(@, k + 1, Len(@))]
+  /\ UNCHANGED <<known, store, bad, lost, cache, pending, faults>>
+  /\ Record(Step("Sequence", [log |-> l, k |-> k], [status |-> 0]))
 
 \* an entry written before external storage was switched on: full chain in the leaf
-Legacy(c) ==
-  /\ c \notin known /\ Len(tree) < MaxTree
-  /\ tree' = Append(tree, [cert |-> c, layout |-> "full"])
-  /\ known' = known \cup {c}
-  /\ UNCHANGED <<queued, store, bad, cache, pending, faults>>
-  /\ Record(Step("Legacy", [cert |-> c], [status |-> 0]))
+Legacy(l, c) ==
+  /\ c \notin known[l] /\ Len(tree[l]) < MaxTree
+  /\ tree' = [tree EXCEPT ![l] = Append(@, [cert |-> c, layout |-> "full"])]
+  /\ known' = [known EXCEPT ![l] = @ \cup {c}]
+  /\ UNCHANGED <<queued, store, bad, lost, cache, pending, faults>>
+  /\ Record(Step("Legacy", [log |-> l, cert |-> c], [status |-> 0]))
 
 \* get-entries (via = "entries") or get-entry-and-proof (via = "proof") for index i (1-based here) on X
 \* reply.find: the storage layer is called; reply.layer: what it returns ("data" = the row's bytes as they are in
 \* the table, intact or damaged: the layer does not judge them; "error": no bytes at all)
-Read(i, via, fault) ==
-  LET e == tree[i]
+Read(l, i, via, fault) ==
+  LET e == tree[l][i]
       h == ChainOf[e.cert]
-      hit == ~NoCache /\ InCache(h)
+      hit == Hit(l, h)
       needStore == e.layout = "hash" /\ ~hit
-      layer == IF fault \in FindFaultsHard \/ h \notin store THEN "error" ELSE "data"      \* a missing row is an error, never empty data
-  IN /\ i \in 1..Len(tree)
+      layer == IF fault \in FindFaultsHard \/ h \notin store[l] THEN "error" ELSE "data"      \* a missing row is an error, never empty data
+  IN /\ i \in 1..Len(tree[l])
      /\ fault \in {"none"} \cup FindFaults
      /\ fault # "none" => faults < MaxFaults /\ needStore
      /\ faults' = IF fault = "none" THEN faults ELSE faults + 1
      /\ IF ~needStore
-        THEN /\ cache' = IF e.layout = "hash" THEN Touch(h) ELSE cache
+        THEN /\ cache' = IF e.layout = "hash" /\ InCache(l, h) THEN [cache EXCEPT ![l] = Touch(l, h)] ELSE cache
              /\ UNCHANGED pending
-             /\ Record(Step("Read", [index |-> i - 1, via |-> via, fault |-> fault],
+             /\ Record(Step("Read", [log |-> l, index |-> i - 1, via |-> via, fault |-> fault],
                             [status |-> 200, cert |-> e.cert, find |-> FALSE, layer |-> "none"]))
-        ELSE IF layer = "error" \/ bad[h] # "ok"
+        ELSE IF layer = "error" \/ bad[l][h] # "ok"
         THEN /\ UNCHANGED <<cache, pending>>
-             /\ Record(Step("Read", [index |-> i - 1, via |-> via, fault |-> fault],
+             /\ Record(Step("Read", [log |-> l, index |-> i - 1, via |-> via, fault |-> fault],
                             [status |-> 500, cert |-> e.cert, find |-> TRUE, layer |-> layer]))
-        ELSE /\ pending' = IF NoCache THEN pending ELSE Append(pending, h)
+        ELSE /\ pending' = IF NoCache THEN pending ELSE [pending EXCEPT ![l] = Append(@, h)]
              /\ UNCHANGED cache
-             /\ Record(Step("Read", [index |-> i - 1, via |-> via, fault |-> fault],
+             /\ Record(Step("Read", [log |-> l, index |-> i - 1, via |-> via, fault |-> fault],
                             [status |-> 200, cert |-> e.cert, find |-> TRUE, layer |-> layer]))
-     /\ UNCHANGED <<queued, tree, known, store, bad>>
+     /\ UNCHANGED <<queued, tree, known, store, bad, lost>>
 
 \* get-entries over several indices i..j: the entries are resolved one after the other, the request fails at the first
 \* one that cannot be resolved (what was resolved before keeps its effect on the cache); an injected storage fault
 \* strikes the first storage lookup of the request.  ls: what the storage layer returned, lookup by lookup.
-RECURSIVE RangeFold(_, _, _, _, _, _)
-RangeFold(k, j, ca, pe, fl, ls) ==
-  IF k > j THEN [ok |-> TRUE, cache |-> ca, pending |-> pe, layers |-> ls, fl |-> fl]
-  ELSE LET e == tree[k]
+\* g: the leaf (position, class) that the backend returned garbled, NoGarble for none.
+\* ws: the lookups that handed back an intact row - each of them is followed by a detached cache write (started also
+\* when the cache is the noop cache, which then forgets it).
+RECURSIVE RangeFold(_, _, _, _, _, _, _, _, _)
+RangeFold(l, k, j, ca, pe, fl, ls, g, ws) ==
+  IF k > j THEN [ok |-> TRUE, cache |-> ca, pending |-> pe, layers |-> ls, fl |-> fl, sets |-> ws]
+  ELSE LET e == tree[l][k]
            h == ChainOf[e.cert]
            hit == ~NoCache /\ \E x \in 1..Len(ca) : ca[x] = h
-       IN IF e.layout = "full" THEN RangeFold(k + 1, j, ca, pe, fl, ls)
-          ELSE IF hit THEN RangeFold(k + 1, j, Append(Without(ca, h), h), pe, fl, ls)
-          ELSE IF fl \/ h \notin store
-               THEN [ok |-> FALSE, cache |-> ca, pending |-> pe, layers |-> Append(ls, "error"), fl |-> FALSE]
-          ELSE IF bad[h] # "ok"
-               THEN [ok |-> FALSE, cache |-> ca, pending |-> pe, layers |-> Append(ls, "data"), fl |-> FALSE]
-          ELSE RangeFold(k + 1, j, ca, IF NoCache THEN pe ELSE Append(pe, h), fl, Append(ls, "data"))
+       IN IF k = g.pos
+          THEN IF g.class = "unknownHash"      \* a well-formed hash layout: the lookup is made and finds nothing
+               THEN [ok |-> FALSE, cache |-> ca, pending |-> pe, layers |-> Append(ls, "error"), fl |-> FALSE, sets |-> ws]
+               ELSE [ok |-> FALSE, cache |-> ca, pending |-> pe, layers |-> ls, fl |-> fl, sets |-> ws]
+          ELSE IF e.layout = "full" THEN RangeFold(l, k + 1, j, ca, pe, fl, ls, g, ws)
+          ELSE IF hit THEN RangeFold(l, k + 1, j, Append(Without(ca, h), h), pe, fl, ls, g, ws)
+          ELSE IF fl \/ h \notin store[l]
+               THEN [ok |-> FALSE, cache |-> ca, pending |-> pe, layers |-> Append(ls, "error"), fl |-> FALSE, sets |-> ws]
+          ELSE IF bad[l][h] # "ok"
+               THEN [ok |-> FALSE, cache |-> ca, pending |-> pe, layers |-> Append(ls, "data"), fl |-> FALSE, sets |-> ws]
+          ELSE RangeFold(l, k + 1, j, ca, IF NoCache THEN pe ELSE Append(pe, h), fl, Append(ls, "data"), g, ws + 1)
 
-ReadRange(i, j, fault) ==
-  /\ i \in 1..Len(tree) /\ j \in 1..Len(tree) /\ i < j
+\* can the leaf at index k of a page be fixed (on its own, in the current state)
+Fixable(l, k, g) == LET h == ChainOf[tree[l][k].cert]
+                    IN k # g.pos /\ (tree[l][k].layout = "full" \/ InCache(l, h) \/ (h \in store[l] /\ bad[l][h] = "ok"))
+\* the leaf whose work completes last under a completion order
+LastFinisher(l, i, j, order, g) ==
+  CASE order = "asc" -> j
+    [] order = "desc" -> i
+    [] order = "failFast" -> IF \E k \in i..j : Fixable(l, k, g) THEN CHOOSE k \in i..j : Fixable(l, k, g) ELSE j
+    [] OTHER -> IF \E k \in i..j : ~Fixable(l, k, g) THEN CHOOSE k \in i..j : ~Fixable(l, k, g) ELSE j
+
+ReadRange(l, i, j, fault, order, g) ==
+  /\ i \in 1..Len(tree[l]) /\ j \in 1..Len(tree[l])
+  /\ order \in Orders
+  /\ IF g = NoGarble THEN i < j ELSE i <= j /\ g.pos \in i..j /\ g.class \in GarbleClasses
   /\ fault \in {"none"} \cup FindFaults
-  /\ LET r == RangeFold(i, j, cache, pending, fault \in FindFaultsHard, <<>>)
+  /\ LET r == RangeFold(l, i, j, cache[l], pending[l], fault \in FindFaultsHard, <<>>, g, 0)
+         \* the defect: the outcome of the leaf that completes last is the outcome of the page
+         ok == IF Defect = "pageLastWins" THEN Fixable(l, LastFinisher(l, i, j, order, g), g) ELSE r.ok
      IN /\ fault \in FindFaultsHard => faults < MaxFaults /\ ~r.fl      \* the fault can only strike when a lookup happens
         /\ fault \in FindFaultsSoft => faults < MaxFaults /\ Len(r.layers) > 0
         /\ faults' = IF fault = "none" THEN faults ELSE faults + 1
-        /\ cache' = r.cache /\ pending' = r.pending
-        /\ Record(Step("ReadRange", [index |-> i - 1, to |-> j - 1, fault |-> fault],
-                       [status |-> IF r.ok THEN 200 ELSE 500, finds |-> Len(r.layers), layers |-> r.layers,
-                        sets |-> Len(r.pending) - Len(pending)]))
-  /\ UNCHANGED <<queued, tree, known, store, bad>>
+        /\ cache' = [cache EXCEPT ![l] = r.cache] /\ pending' = [pending EXCEPT ![l] = r.pending]
+        /\ Record(Step("ReadRange", [log |-> l, index |-> i - 1, to |-> j - 1, fault |-> fault, order |-> order,
+                                     garble |-> [pos |-> g.pos - 1, class |-> g.class]],
+                       [status |-> IF ok THEN 200 ELSE 500, finds |-> Len(r.layers), layers |-> r.layers,
+                        sets |-> r.sets]))
+  /\ UNCHANGED <<queued, tree, known, store, bad, lost>>
 
 \* the detached goroutine runs
-CacheSetFires ==
-  /\ Len(pending) > 0
-  /\ cache' = Put(Head(pending))
-  /\ pending' = Tail(pending)
-  /\ UNCHANGED <<queued, tree, known, store, bad, faults>>
-  /\ Record(Step("CacheSetFires", [chain |-> Head(pending)], [status |-> 0]))
+CacheSetFires(l) ==
+  /\ Len(pending[l]) > 0
+  /\ cache' = [cache EXCEPT ![l] = Put(l, Head(pending[l]))]
+  /\ pending' = [pending EXCEPT ![l] = Tail(@)]
+  /\ UNCHANGED <<queued, tree, known, store, bad, lost, faults>>
+  /\ Record(Step("CacheSetFires", [log |-> l, chain |-> Head(pending[l])], [status |-> 0]))
 
 \* storage damage
-DropRow(h) ==
-  /\ h \in store /\ faults < MaxFaults
-  /\ store' = store \ {h} /\ faults' = faults + 1
+DropRow(l, h) ==
+  /\ h \in store[l] /\ faults < MaxFaults
+  /\ store' = [store EXCEPT ![l] = @ \ {h}] /\ lost' = [lost EXCEPT ![l] = @ \cup {h}] /\ faults' = faults + 1
   /\ UNCHANGED <<queued, tree, known, bad, cache, pending>>
-  /\ Record(Step("DropRow", [chain |-> h], [status |-> 0]))
+  /\ Record(Step("DropRow", [log |-> l, chain |-> h], [status |-> 0]))
 
-Corrupt(h, class) ==
-  /\ h \in store /\ bad[h] = "ok" /\ faults < MaxFaults
-  /\ bad' = [bad EXCEPT ![h] = class] /\ faults' = faults + 1
-  /\ UNCHANGED <<queued, tree, known, store, cache, pending>>
-  /\ Record(Step("Corrupt", [chain |-> h, class |-> class], [status |-> 0]))
+Corrupt(l, h, class) ==
+  /\ h \in store[l] /\ bad[l][h] = "ok" /\ faults < MaxFaults
+  /\ bad' = [bad EXCEPT ![l][h] = class] /\ faults' = faults + 1
+  /\ UNCHANGED <<queued, tree, known, store, lost, cache, pending>>
+  /\ Record(Step("Corrupt", [log |-> l, chain |-> h, class |-> class], [status |-> 0]))
 
-\* the front end is restarted, or another replica with its own (cold) cache takes over: store and backend are
-\* shared and survive; the cache and the detached writes still on their way die with the process
+\* the process is restarted, or another replica with its own (cold) caches takes over: stores and backends are
+\* shared and survive; the caches of all its logs and the detached writes still on their way die with the process
 Restart ==
   /\ faults < MaxFaults
-  /\ cache' = <<>> /\ pending' = <<>> /\ faults' = faults + 1
-  /\ UNCHANGED <<queued, tree, known, store, bad>>
+  /\ cache' = [l \in Logs |-> <<>>] /\ pending' = [l \in Logs |-> <<>>] /\ faults' = faults + 1
+  /\ UNCHANGED <<queued, tree, known, store, bad, lost>>
   /\ Record(Step("Restart", [k |-> 0], [status |-> 0]))
 
 \* "swapped": the row holds the well-formed chain value of another key
 CorruptClasses == {"trailing", "notDER", "truncated", "contentFlip", "empty", "swapped"}
 
-Next ==
-  \/ \E c \in Certs, f \in {"none"} \cup AddFaults : Submit(c, f)
-  \/ \E k \in 1..MaxTree : Sequence(k)
-  \/ \E c \in Certs : Legacy(c)
-  \/ \E i \in 1..MaxTree, v \in {"entries", "proof"}, f \in {"none"} \cup FindFaults : Read(i, v, f)
-  \/ \E i \in 1..MaxTree, j \in 1..MaxTree, f \in {"none"} \cup FindFaults : ReadRange(i, j, f)
-  \/ CacheSetFires
-  \/ \E h \in Chains : DropRow(h)
-  \/ \E h \in Chains, k \in CorruptClasses : Corrupt(h, k)
+Garbles(i, j, Gs) == {NoGarble} \cup [pos : i..j, class : Gs]
+
+\* Os / Gs: the completion orders and garble classes explored (Next: all of them)
+NextWith(Os, Gs) ==
+  \/ \E l \in Logs, c \in Certs, f \in {"none"} \cup AddFaults : Submit(l, c, f)
+  \/ \E l \in Logs, k \in 1..MaxTree : Sequence(l, k)
+  \/ \E l \in Logs, c \in Certs : Legacy(l, c)
+  \/ \E l \in Logs, i \in 1..MaxTree, v \in {"entries", "proof"}, f \in {"none"} \cup FindFaults : Read(l, i, v, f)
+  \/ \E l \in Logs, i \in 1..MaxTree, j \in 1..MaxTree, f \in {"none"} \cup FindFaults, o \in Os : \E g \in Garbles(i, j, Gs) : ReadRange(l, i, j, f, o, g)
+  \/ \E l \in Logs : CacheSetFires(l)
+  \/ \E l \in Logs, h \in Chains : DropRow(l, h)
+  \/ \E l \in Logs, h \in Chains, k \in CorruptClasses : Corrupt(l, h, k)
   \/ Restart
+
+Next == NextWith(Orders, GarbleClasses)
 
 Spec == Init /\ [][Next]_vars
 
 \* what a front end with a cold cache (after Restart, or another replica) can serve from the current state
-ServableCold(i) == tree[i].layout = "full" \/ (ChainOf[tree[i].cert] \in store /\ bad[ChainOf[tree[i].cert]] = "ok")
+ServableCold(l, i) == tree[l][i].layout = "full" \/ (ChainOf[tree[l][i].cert] \in store[l] /\ bad[l][ChainOf[tree[l][i].cert]] = "ok")
+
+LogOf(s) == s.args.log
 
 (* ---------------- properties ---------------- *)
 \* a reply of 200 always carries the chain of the certificate stored at that index (what D serves):
 \* here by construction of Read; stated so that TLC evaluates it on every transition
-SameAsDirect == [][last'.op = "Read" /\ last'.reply.status = 200 => last'.reply.cert = tree[last'.args.index + 1].cert]_vars
+SameAsDirect == [][last'.op = "Read" /\ last'.reply.status = 200 => last'.reply.cert = tree[LogOf(last')][last'.args.index + 1].cert]_vars
 
 \* a read that succeeds without the cache had an intact row; a damaged or missing row is an error, never data
 FaultIsError == [][(last'.op = "Read" /\ last'.reply.find /\ last'.reply.status = 200) =>
-                      LET h == ChainOf[last'.reply.cert] IN h \in store /\ bad[h] = "ok"]_vars
+                      LET h == ChainOf[last'.reply.cert] IN h \in store[LogOf(last')] /\ bad[LogOf(last')][h] = "ok"]_vars
 
-\* a range is served only when every one of its entries is: whole or error, never a part with something else in it
+\* a range is served only when every one of its entries is: whole or error, never a part with something else in it -
+\* whatever the position of the leaf that cannot be fixed and whatever the order in which the per-leaf work completes
 RangeWhole == [][(last'.op = "ReadRange" /\ last'.reply.status = 200) =>
-                    \A k \in last'.args.index + 1..last'.args.to + 1 :
-                       LET h == ChainOf[tree[k].cert]
-                       IN tree[k].layout = "full" \/ (h \in store /\ bad[h] = "ok") \/ (\E x \in 1..Len(cache) : cache[x] = h)]_vars
+                    /\ last'.args.garble.class = "none"
+                    /\ \A k \in last'.args.index + 1..last'.args.to + 1 :
+                         LET l == LogOf(last')
+                             h == ChainOf[tree[l][k].cert]
+                         IN tree[l][k].layout = "full" \/ (h \in store[l] /\ bad[l][h] = "ok") \/ (\E x \in 1..Len(cache[l]) : cache[l][x] = h)]_vars
+\* a leaf the backend returned garbled is an error of the page, at every position
+GarbledLeafIsError == [][(last'.op = "ReadRange" /\ last'.args.garble.class # "none") => last'.reply.status = 500]_vars
+\* the reply to a page is a function of the state and the request, not of the completion order
+RangeOrderIrrelevant ==
+  [][last'.op = "ReadRange" =>
+       LET l == LogOf(last')
+           g == [pos |-> last'.args.garble.pos + 1, class |-> last'.args.garble.class]
+           r == RangeFold(l, last'.args.index + 1, last'.args.to + 1, cache[l], pending[l], last'.args.fault \in FindFaultsHard, <<>>, g, 0)
+       IN last'.reply.status = (IF r.ok THEN 200 ELSE 500) /\ last'.reply.layers = r.layers /\ last'.reply.sets = r.sets
+          /\ (~NoCache => r.sets = Len(pending'[l]) - Len(pending[l]))]_vars
 
 \* legacy entries never need the store
-LegacyUnchanged == [][(last'.op = "Read" /\ tree[last'.args.index + 1].layout = "full") =>
+LegacyUnchanged == [][(last'.op = "Read" /\ tree[LogOf(last')][last'.args.index + 1].layout = "full") =>
                          last'.reply.status = 200 /\ ~last'.reply.find]_vars
 
 \* durability, whatever the cache state: a submission is acknowledged (and its leaf queued) only once the store has
 \* the chain, and rows leave the store only through storage damage.  Together: every acknowledged hash-layout
 \* entry can be resolved from the store alone, which is what makes a cold cache (Restart, another replica,
 \* eviction) harmless.
-AckAfterStore == [][(last'.op = "Submit" /\ last'.reply.status = 200 /\ last'.reply.add) => ChainOf[last'.args.cert] \in store']_vars
+AckAfterStore == [][(last'.op = "Submit" /\ last'.reply.status = 200 /\ last'.reply.add) => ChainOf[last'.args.cert] \in store'[LogOf(last')]]_vars
+\* ... also when the submission was answered from the cache: the table of THAT log holds the chain unless storage
+\* damage removed the row (a retry after a failed Add, a submission to another log of the process, a submission
+\* after a restart all have to store the chain themselves)
+AckedIsStored == [][(last'.op = "Submit" /\ last'.reply.status = 200) =>
+                      LET l == LogOf(last') h == ChainOf[last'.args.cert]
+                      IN (h \in store'[l] \/ h \in lost'[l]) /\ last'.reply.stored = (h \in store'[l])]_vars
+\* the same as a state invariant over everything acknowledged so far (this is what the named defects break)
+AckedServable == \A l \in Logs :
+                   /\ \A i \in 1..Len(tree[l]) : tree[l][i].layout = "hash" => (ChainOf[tree[l][i].cert] \in store[l] \/ ChainOf[tree[l][i].cert] \in lost[l])
+                   /\ \A i \in 1..Len(queued[l]) : ChainOf[queued[l][i]] \in store[l] \/ ChainOf[queued[l][i]] \in lost[l]
 \* ... and a cache hit stands for "stored": cache and detached writes only ever carry chains the store holds; every
 \* action except storage damage preserves that (stated as the inductive step so that it needs no history)
 CacheWithinStore(ca, pe, st) == (\A i \in 1..Len(ca) : ca[i] \in st) /\ (\A i \in 1..Len(pe) : pe[i] \in st)
-CacheFromStore == [][(CacheWithinStore(cache, pending, store) /\ last'.op # "DropRow") => CacheWithinStore(cache', pending', store')]_vars
-StoreMonotone == [][last'.op # "DropRow" => store \subseteq store']_vars
+CacheFromStore == [][\A l \in Logs : (CacheWithinStore(cache[l], pending[l], store[l]) /\ last'.op # "DropRow") => CacheWithinStore(cache'[l], pending'[l], store'[l])]_vars
+\* without storage damage: whatever a cache holds or is about to be told, the table of the same log holds
+CacheStandsForStored == \A l \in Logs : CacheWithinStore(cache[l], pending[l], store[l] \cup lost[l])
+StoreMonotone == [][last'.op # "DropRow" => \A l \in Logs : store[l] \subseteq store'[l]]_vars
 \* nothing but storage damage makes an integrated entry unservable for a cold front end
-ServableStays == [][\A i \in 1..Len(tree) : (ServableCold(i) /\ last'.op \notin {"DropRow", "Corrupt"}) => ServableCold(i)']_vars
-RestartIsCold == [][last'.op = "Restart" => cache' = <<>> /\ pending' = <<>>]_vars
+ServableStays == [][\A l \in Logs : \A i \in 1..Len(tree[l]) : (ServableCold(l, i) /\ last'.op \notin {"DropRow", "Corrupt"}) => ServableCold(l, i)']_vars
+RestartIsCold == [][last'.op = "Restart" => \A l \in Logs : cache'[l] = <<>> /\ pending'[l] = <<>>]_vars
+\* the logs of a process share nothing: a step on one log leaves every other log's tree, table, cache and detached
+\* writes as they are (a restart takes all caches of the process down, and nothing else)
+LogsIndependent == [][\A m \in Logs : (last'.op # "Restart" /\ m # LogOf(last')) =>
+                          /\ queued'[m] = queued[m] /\ tree'[m] = tree[m] /\ known'[m] = known[m] /\ store'[m] = store[m]
+                          /\ bad'[m] = bad[m] /\ lost'[m] = lost[m] /\ cache'[m] = cache[m] /\ pending'[m] = pending[m]]_vars
 
 (* ---------------- the storage layer (per Dialect) ---------------- *)
 \* de-duplication: an Add of a key the table already holds (the same chain hash from another leaf, or from the same
 \* leaf again) is a success for the caller, takes the dialect's de-duplication path, and leaves the table as it is -
 \* in the SQL dialects down to the row's bytes (a damaged row stays damaged: nothing is written)
-DedupIsSuccess == [][(last'.op = "Submit" /\ last'.reply.add /\ last'.args.fault \notin AddFaultsHard /\ ChainOf[last'.args.cert] \in store)
+DedupIsSuccess == [][(last'.op = "Submit" /\ last'.reply.add /\ last'.args.fault \notin AddFaultsHard /\ ChainOf[last'.args.cert] \in store[LogOf(last')])
                         => /\ last'.reply.status = 200 /\ last'.reply.path = DedupPath /\ last'.reply.layer = "ok"
                            /\ store' = store
                            /\ SQL => bad' = bad]_vars
-FirstAddInserts == [][(last'.op = "Submit" /\ last'.reply.add /\ last'.args.fault \notin AddFaultsHard /\ ChainOf[last'.args.cert] \notin store)
-                        => last'.reply.path = "inserted" /\ ChainOf[last'.args.cert] \in store' /\ bad'[ChainOf[last'.args.cert]] = "ok"]_vars
+FirstAddInserts == [][(last'.op = "Submit" /\ last'.reply.add /\ last'.args.fault \notin AddFaultsHard /\ ChainOf[last'.args.cert] \notin store[LogOf(last')])
+                        => last'.reply.path = "inserted" /\ ChainOf[last'.args.cert] \in store'[LogOf(last')] /\ bad'[LogOf(last')][ChainOf[last'.args.cert]] = "ok"]_vars
 \* any other storage error on Add: the submission is answered 5xx (so: no SCT), nothing is queued, the certificate
-\* does not become known to the backend, no cache write is started
+\* does not become known to the backend, no cache write is started - neither now nor when the request is over
 AddErrorIs5xx == [][(last'.op = "Submit" /\ last'.args.fault \in AddFaultsHard)
                        => /\ last'.reply.status = 500 /\ last'.reply.layer = "error"
                           /\ queued' = queued /\ known' = known /\ cache' = cache /\ pending' = pending /\ tree' = tree]_vars
@@ -291,16 +389,16 @@ FindErrorIs5xx == [][/\ (last'.op = "Read" /\ (last'.args.fault \in FindFaultsHa
                      /\ (last'.op = "ReadRange" /\ (last'.args.fault \in FindFaultsHard \/ \E k \in 1..Len(last'.reply.layers) : last'.reply.layers[k] = "error"))
                            => last'.reply.status = 500]_vars
 \* a missing row is an error of the layer (never "data", in particular never empty chain data)
-MissingRowIsError == [][(last'.op = "Read" /\ last'.reply.find /\ ChainOf[last'.reply.cert] \notin store) => last'.reply.layer = "error" /\ last'.reply.status = 500]_vars
+MissingRowIsError == [][(last'.op = "Read" /\ last'.reply.find /\ ChainOf[last'.reply.cert] \notin store[LogOf(last')]) => last'.reply.layer = "error" /\ last'.reply.status = 500]_vars
 \* a connection lost before the statement was sent is invisible: the reply is the one without the fault
 SoftFaultInvisible ==
-  [][/\ (last'.op = "Submit" /\ last'.args.fault \in AddFaultsSoft) => last'.reply.status = 200 /\ last'.reply.layer = "ok" /\ ChainOf[last'.args.cert] \in store'
+  [][/\ (last'.op = "Submit" /\ last'.args.fault \in AddFaultsSoft) => last'.reply.status = 200 /\ last'.reply.layer = "ok" /\ ChainOf[last'.args.cert] \in store'[LogOf(last')]
      /\ (last'.op = "Read" /\ last'.args.fault \in FindFaultsSoft)
-           => LET h == ChainOf[last'.reply.cert] IN last'.reply.status = (IF h \in store /\ bad[h] = "ok" THEN 200 ELSE 500)]_vars
+           => LET h == ChainOf[last'.reply.cert] IN last'.reply.status = (IF h \in store[LogOf(last')] /\ bad[LogOf(last')][h] = "ok" THEN 200 ELSE 500)]_vars
 \* only the classes of the dialect occur
 FaultClasses == last.op \in {"Submit", "Read", "ReadRange"} => last.args.fault \in {"none"} \cup AddFaults \cup FindFaults
 
 \* the cache only ever holds chains that were stored (it cannot invent data)
-CacheSound == \A i \in 1..Len(cache) : cache[i] \in Chains
-CacheBounded == Cap > 0 => Len(cache) <= Cap
+CacheSound == \A l \in Logs : \A i \in 1..Len(cache[l]) : cache[l][i] \in Chains
+CacheBounded == Cap > 0 => \A l \in Logs : Len(cache[l]) <= Cap
 =============================================================================
